@@ -113,6 +113,12 @@ Section SortedSetModel.
     | SSet l => list_eqb s (of_list l)
     | PSet l => (length l =? length s) && forallb (contains s) l
     end.
+  (* __ne__: same class -> list inequality; else len(other) != len(items) or any(item not in self for item in other) *)
+  Definition set_ne (s : list A) (o : operand) : bool :=
+    match o with
+    | SSet l => negb (list_eqb s (of_list l))
+    | PSet l => negb (length l =? length s) || existsb (fun x => negb (contains s x)) l
+    end.
   Definition set_lt (s : list A) (o : operand) : bool := (length s <? operand_len o) && issubset s o.
   Definition set_gt (s : list A) (o : operand) : bool := (operand_len o <? length s) && issuperset s o.
 
@@ -127,7 +133,7 @@ Section SortedSetModel.
   | OSymDiff (l : list A)
   | OIOr (o : operand) | OIAnd (o : operand) | OISub (o : operand) | OIXor (l : list A)
   | OIsSubset (o : operand) | OIsSuperset (o : operand) | OIsDisjoint (o : operand)
-  | OEq (o : operand) | OLt (o : operand) | OGt (o : operand)
+  | OEq (o : operand) | ONe (o : operand) | OLt (o : operand) | OGt (o : operand)
   | OGetItem (i : Z) | ODelItem (i : Z) | OLen | OIter.
 
   Inductive out :=
@@ -153,6 +159,7 @@ Section SortedSetModel.
     | OIsSuperset o => (s, RBool (issuperset s o))
     | OIsDisjoint o => (s, RBool (isdisjoint s o))
     | OEq o => (s, RBool (set_eq s o))
+    | ONe o => (s, RBool (set_ne s o))
     | OLt o => (s, RBool (set_lt s o))
     | OGt o => (s, RBool (set_gt s o))
     | OGetItem i => match norm_index (length s) i with
@@ -189,7 +196,7 @@ Section SortedSetModel.
   Definition op_ok (o : op) : Prop :=
     match o with
     | OUnion os | OIntersection os | ODifference os => Forall operand_ok os
-    | OIOr o | OIAnd o | OISub o | OIsSubset o | OIsSuperset o | OIsDisjoint o | OEq o | OLt o | OGt o => operand_ok o
+    | OIOr o | OIAnd o | OISub o | OIsSubset o | OIsSuperset o | OIsDisjoint o | OEq o | ONe o | OLt o | OGt o => operand_ok o
     | _ => True
     end.
 
@@ -215,6 +222,7 @@ Section SortedSetModel.
     | OIsSuperset o => s' = s /\ exists b, r = RBool b /\ (b = true <-> (forall y, oset o y -> In y s))
     | OIsDisjoint o => s' = s /\ exists b, r = RBool b /\ (b = true <-> (forall y, In y s -> ~ oset o y))
     | OEq o => s' = s /\ exists b, r = RBool b /\ (b = true <-> (forall y, In y s <-> oset o y))
+    | ONe o => s' = s /\ exists b, r = RBool b /\ (b = true <-> ~ (forall y, In y s <-> oset o y))
     | OLt o => s' = s /\ exists b, r = RBool b /\
               (b = true <-> ((forall y, In y s -> oset o y) /\ exists z, oset o z /\ ~ In z s))
     | OGt o => s' = s /\ exists b, r = RBool b /\
@@ -235,6 +243,55 @@ Section SortedSetModel.
     | [] => True
     | o :: r => let s' := fst (step s o) in Inv s' /\ spec s o s' (snd (step s o)) /\ run_ok s' r
     end.
+
+  (* ---------------------------------------------------------------- two sets: the set and a copy of it.
+     copy() builds a NEW list (new._items = list(self._items)); intersection() / difference() / union() without
+     arguments return such a copy.  In the model the two registers are independent values: an operation on one
+     never changes the other (no shared backing list). *)
+  Inductive copy_how := ByCopy | ByIntersection0 | ByDifference0 | ByUnion0.
+  Definition copy_of (how : copy_how) (s : list A) : list A :=
+    match how with
+    | ByCopy => s
+    | ByIntersection0 => intersection s []
+    | ByDifference0 => difference s []
+    | ByUnion0 => union s []
+    end.
+
+  Inductive op2 :=
+  | OMain (o : op)               (* operation on the set itself *)
+  | OCopy (how : copy_how)       (* c = s.copy() / s.intersection() / s.difference() / s.union() *)
+  | OOnCopy (o : op).            (* operation on the copy *)
+
+  Definition step2 (st : list A * list A) (o : op2) : (list A * list A) * out :=
+    match o with
+    | OMain o => let '(s', r) := step (fst st) o in ((s', snd st), r)
+    | OCopy how => ((fst st, copy_of how (fst st)), RItems (copy_of how (fst st)))
+    | OOnCopy o => let '(c', r) := step (snd st) o in ((fst st, c'), r)
+    end.
+
+  Fixpoint run2 (st : list A * list A) (ops : list op2) : list ((list A * list A) * out) :=
+    match ops with
+    | [] => []
+    | o :: r => let '(st', x) := step2 st o in (st', x) :: run2 st' r
+    end.
+
+  Definition op2_ok (o : op2) : Prop :=
+    match o with OMain o | OOnCopy o => op_ok o | OCopy _ => True end.
+
+  (* the operated register follows `spec`, the OTHER register is unchanged; a copy has exactly the members of the set *)
+  Definition spec2 (st : list A * list A) (o : op2) (st' : list A * list A) (r : out) : Prop :=
+    match o with
+    | OMain o => spec (fst st) o (fst st') r /\ snd st' = snd st
+    | OCopy _ => st' = (fst st, fst st) /\ r = RItems (fst st)
+    | OOnCopy o => spec (snd st) o (snd st') r /\ fst st' = fst st
+    end.
+
+  Fixpoint run2_ok (st : list A * list A) (ops : list op2) : Prop :=
+    match ops with
+    | [] => True
+    | o :: r => let st' := fst (step2 st o) in
+                Inv (fst st') /\ Inv (snd st') /\ spec2 st o st' (snd (step2 st o)) /\ run2_ok st' r
+    end.
 End SortedSetModel.
 
 Arguments SSet {A} l.
@@ -243,8 +300,9 @@ Arguments OAdd {A} x. Arguments ORemove {A} x. Arguments OPop {A}. Arguments OCo
 Arguments OUpdate {A} l. Arguments OClear {A}. Arguments OUnion {A} os. Arguments OIntersection {A} os.
 Arguments ODifference {A} os. Arguments OSymDiff {A} l. Arguments OIOr {A} o. Arguments OIAnd {A} o.
 Arguments OISub {A} o. Arguments OIXor {A} l. Arguments OIsSubset {A} o. Arguments OIsSuperset {A} o.
-Arguments OIsDisjoint {A} o. Arguments OEq {A} o. Arguments OLt {A} o. Arguments OGt {A} o.
+Arguments OIsDisjoint {A} o. Arguments OEq {A} o. Arguments ONe {A} o. Arguments OLt {A} o. Arguments OGt {A} o.
 Arguments OGetItem {A} i. Arguments ODelItem {A} i. Arguments OLen {A}. Arguments OIter {A}.
+Arguments OMain {A} o. Arguments OCopy {A} how. Arguments OOnCopy {A} o.
 Arguments RNone {A}. Arguments RBool {A} b. Arguments RElem {A} x. Arguments RItems {A} l.
 Arguments RLen {A} n. Arguments RKeyError {A}. Arguments RIndexError {A}.
 
